@@ -44,25 +44,6 @@ theorem norm_idem_total (S : Schema) (hS : S.WF) (hm : noMandFs S.fields = true)
     S.encode (S.decode (S.encode (S.decode x))) = S.encode (S.decode x) := by
   rw [decode_encode S hS _ (decode_lands_canon_total S hm x)]
 
-/-- **`QXmppResultSetReply` is not a fixpoint after one pass.** The element
-`<x><set xmlns="http://jabber.org/protocol/rsm"><first>a</first><count>-5</count></set></x>` is accepted and
-serialized without `<count/>` (negative = unset); parsing that output yields `count = 0` and the second
-serialization contains `<count>0</count>`. -/
-theorem C02_defect_resultsetreply_not_fixpoint :
-    ¬ (∀ x y, Classes.ResultSetReplyCode.norm x = some y → Classes.ResultSetReplyCode.norm y = some y) := by
-  intro h
-  let x : Node := .elem "x".toList [] [.elem "set".toList [("xmlns".toList, Classes.nsRsm)]
-    [.elem "first".toList [] [.text "a".toList], .elem "count".toList [] [.text "-5".toList]]]
-  let y : Node := .elem "x".toList [] [.elem "set".toList [("xmlns".toList, Classes.nsRsm)]
-    [.elem "first".toList [] [.text "a".toList]]]
-  have h1 : Classes.ResultSetReplyCode.norm x = some y := by rfl
-  have h2 := h x y h1
-  have h3 : Classes.ResultSetReplyCode.norm y = some (.elem "x".toList [] [.elem "set".toList
-      [("xmlns".toList, Classes.nsRsm)]
-      [.elem "first".toList [] [.text "a".toList], .elem "count".toList [] [.text "0".toList]]]) := by rfl
-  rw [h3] at h2
-  simp [y] at h2
-
 /-- non-vacuity: a foreign element is a legitimate input of `norm_idem_total` -/
 example : noMandFs Classes.Bind2Request.fields = true := by decide
 
